@@ -612,6 +612,11 @@ def check(ctx):
     from . import c01
     with ctx.shared({'C01': 'C19.1'}):
         c01._units(ctx)
+    # shared with C15.5: the reservation being replaced is left out of the
+    # sums by its id - the id the listing decodes from a DN is built the same
+    # way (tenant order, separators) as the id of the request
+    from . import c15
+    c15.dn_order(ctx, rule='C19.3')
 
 
 _A = 'lib/python/treadmill/api/allocation.py'
